@@ -1,3 +1,4 @@
+(* EmitNqHOOpsFull.v — copy of EmitHOOpsFull.v over the widened emit_ok (EmitNqHO.v).  Original header follows. *)
 (* EmitNqHOOpsFull.v — C05: EVERY transcribed built-in of EvalFull.builtin_full except the two that apply
    Value::equals to argument elements (unique, includes: finding F53) respects the emit/reload value
    relation [vrel]: related callbacks, related argument vectors -> related outcomes.  The arms are
@@ -12,14 +13,14 @@ Require Import Blots.Num Blots.gen.Builtins Blots.Ast Blots.Value Blots.Outcome 
                Blots.Env Blots.Eval Blots.Emit Blots.BuiltinsHof Blots.Program Blots.EvalInst Blots.EvalFull
                Blots.proofs.ValueInd Blots.proofs.EmitLit Blots.proofs.EmitSubst Blots.proofs.EmitSound
                Blots.proofs.EmitNqHO Blots.proofs.EmitNqHOSim Blots.proofs.EmitNqHOOps Blots.proofs.EmitNqHOTop
-               Blots.proofs.RelPure.
+               Blots.proofs.RelPure Blots.EmitNq Blots.proofs.EmitNqLit.
 Import ListNotations.
 Open Scope string_scope.
 Open Scope list_scope.
 
 (* every built-in except the two whose arm applies Value::equals to argument elements *)
-Definition biok_full (b : builtin) : bool :=
-  match b with B_unique | B_includes => false | _ => true end.
+Require Blots.proofs.EmitHOOpsFull.
+Notation biok_full := Blots.proofs.EmitHOOpsFull.biok_full.   (* the SAME exclusion as the earlier theorems *)
 
 Section Full.
   Variable opok : binop -> bool.
@@ -121,10 +122,10 @@ Theorem ho_simulation_all : forall release nanfix d fr fr' this this' f f' args 
   vrelF nanfix f f' -> lrelF nanfix args args' ->
   orelF nanfix (fst (AD release binop_impl builtin_full d fr this f args st))
                (fst (AD release binop_impl builtin_full d fr' this' f' args' st')).
-Proof. intros release nanfix. apply ho_simulation. apply impl_rel_full_all. Qed.
+Proof. intros release nanfix. apply ho_simulation; [apply impl_rel_full_all|apply binop_lit_ok_inst]. Qed.
 
 Theorem emit_equiv_higher_order_all : forall release nanfix d fr fr' this this' id id' ps b sc args args' st st',
-  emit_okF (VLam id ps b sc) = true -> lrelF nanfix args args' ->
+  emit_okF nanfix (VLam id ps b sc) = true -> lrelF nanfix args args' ->
   orelF nanfix (fst (AD release binop_impl builtin_full d fr this (VLam id ps b sc) args st))
                (fst (AD release binop_impl builtin_full d fr' this'
                         (VLam id' ps (subst true (scope_map nanfix true sc) b) []) args' st')).
@@ -133,14 +134,14 @@ Proof.
 Qed.
 
 (* emittable values are related to themselves (generic in the knobs; EmitNqHOTop has the biok_inst instance) *)
-Lemma emit_ok_refl_gen opok biok nanfix : forall v, emit_ok opok biok v = true -> vrel opok biok nanfix v v.
+Lemma emit_ok_refl_gen opok biok nanfix : forall v, emit_ok opok biok nanfix v = true -> vrel opok biok nanfix v v.
 Proof.
   induction v using value_ind'; intros Hok; try (constructor; fail).
   - constructor. cbn [EmitNqHO.emit_ok] in Hok. induction H as [|x l Hx _ IH]; [constructor|].
     cbn in Hok. apply andb_prop in Hok as [A B]. constructor; auto.
   - constructor. cbn [EmitNqHO.emit_ok] in Hok. apply andb_prop in Hok as [_ Hok].
     induction H as [|[k x] l Hx _ IH]; [constructor|].
-    cbn in Hok, Hx. apply andb_prop in Hok as [A B]. apply andb_prop in A as [_ A]. constructor; auto.
+    cbn in Hok, Hx. apply andb_prop in Hok as [A B]. constructor; auto.
   - rewrite <- (subst_nil true b) at 2.
     cbn [EmitNqHO.emit_ok] in Hok. apply andb_prop in Hok as [Hok Hsc]. apply andb_prop in Hok as [Hok Hnm].
     apply andb_prop in Hok as [Hb Hfv].
@@ -156,7 +157,7 @@ Proof.
 Qed.
 
 Theorem emit_equiv_ho_same_args_all : forall release nanfix d fr fr' this this' id id' ps b sc args st st' r,
-  emit_okF (VLam id ps b sc) = true -> forallb emit_okF args = true ->
+  emit_okF nanfix (VLam id ps b sc) = true -> forallb (emit_okF nanfix) args = true ->
   fst (AD release binop_impl builtin_full d fr this (VLam id ps b sc) args st) = r ->
   exists r', fst (AD release binop_impl builtin_full d fr' this'
                      (VLam id' ps (subst true (scope_map nanfix true sc) b) []) args st') = r' /\
@@ -206,13 +207,13 @@ Definition all_builtins_rel_unrestricted : Prop :=
 Lemma all_builtins_rel_unrestricted_refuted : ~ all_builtins_rel_unrestricted.
 Proof.
   intros H. specialize (H true).
-  assert (Hok : emit_ok eqfree (fun _ => true) f53_includes_fun = true) by (vm_compute; reflexivity).
+  assert (Hok : emit_ok eqfree (fun _ => true) true f53_includes_fun = true) by (vm_compute; reflexivity).
   pose proof (reload_rel eqfree (fun _ => true) true 0%nat 1%nat _ _ _ Hok) as Hrel.
   assert (Hargs : lrel eqfree (fun _ => true) true [VNum nzero] [VNum nzero]) by (repeat constructor).
   set (f' := VLam 1%nat [AReq "x"]
                    (subst true (scope_map true true [("k1", f52_k 1%Z); ("k2", f52_k 2%Z)])
                       (ECall (EBuiltin B_includes) [EList [Cm [] (EId "k1") None]; EId "k2"])) []) in *.
-  pose proof (ho_simulation eqfree (fun _ => true) true true binop_impl builtin_full H LIMIT
+  pose proof (ho_simulation eqfree (fun _ => true) true true binop_impl builtin_full H binop_lit_ok_inst LIMIT
                 [(FOwned, [])] [(FOwned, [])] f53_includes_fun f' f53_includes_fun f'
                 [VNum nzero] [VNum nzero] [None; None] [None; None] Hrel Hargs) as G.
   destruct f53_includes_refuted as (_ & E1 & E2). unfold call_on_full in E1, E2.
